@@ -28,6 +28,7 @@ type Faults struct {
 	Dup             bool   `json:"dup,omitempty"`
 	Intermediary    int    `json:"intermediary,omitempty"` // 0 none, else index into Canned
 	WriterFail      bool   `json:"writer_fail,omitempty"`  // ResponseWriter.Write starts failing after k bytes
+	WriterFailAt0   bool   `json:"writer_fail_at_0,omitempty"` // ... with k = 0: the very first Write is rejected with n = 0
 	CancelBefore    bool   `json:"cancel_before_send,omitempty"`
 	SrvCancelStep   int    `json:"srv_cancel_step,omitempty"` // server ctx cancelled at the server task's k-th own step
 	RawRespFail     bool   `json:"raw_resp_fail,omitempty"`   // handler-supplied raw response body fails mid-copy
@@ -296,8 +297,14 @@ func Serve(s *Sched, h http.Handler, c2s *Conn, d *Delivery, f Faults, rng *rand
 	rw := &RW{S: s, req: req, hdr: http.Header{}, FailAfter: -1}
 	if f.WriterFail {
 		rw.FailAfter = rng.IntN(64)
-		if rng.IntN(3) == 0 {
+		switch rng.IntN(4) {
+		case 0:
 			rw.FailAfter = rng.IntN(8192)
+		case 1:
+			rw.FailAfter = 0
+		}
+		if f.WriterFailAt0 {
+			rw.FailAfter = 0
 		}
 	}
 	d.Entered = true
